@@ -18,6 +18,12 @@ pub struct RowModel<T: Sc> {
     /// single entries (row, column, value) of the basis matrix to overwrite (C08: one non-finite
     /// element anywhere, the first and the last one included)
     pub entries: Vec<(usize, usize, T)>,
+    /// `(k, threshold)`: the partial derivative with respect to parameter k fails whenever the first
+    /// model parameter exceeds the threshold (a failure that is a function of the parameters only,
+    /// hence independent of the order in which parallel column tasks run)
+    pub fail_deriv: Option<(usize, T)>,
+    /// single entries (k, row, column, value) of the k-th partial-derivative matrix to overwrite
+    pub dentries: Vec<(usize, usize, usize, T)>,
 }
 impl<T: Sc> RowModel<T> {
     fn fix_eval(&self, m: DMatrix<T>) -> DMatrix<T> {
@@ -67,7 +73,20 @@ impl<T: Sc> SeparableNonlinearModel for RowModel<T> {
         self.inner.eval().map(|m| self.fix_eval(m))
     }
     fn eval_partial_deriv(&self, k: usize) -> Result<OMatrix<T, Dyn, Dyn>, HErr> {
-        self.inner.eval_partial_deriv(k).map(|m| self.fix(m))
+        if let Some((kf, thr)) = self.fail_deriv {
+            if k == kf && self.inner.params()[0] > thr {
+                return Err(HErr("derivative unavailable".to_string()));
+            }
+        }
+        self.inner.eval_partial_deriv(k).map(|m| {
+            let mut m = self.fix(m);
+            for (kk, i, j, v) in self.dentries.iter() {
+                if *kk == k && *i < m.nrows() && *j < m.ncols() {
+                    m[(*i, *j)] = *v;
+                }
+            }
+            m
+        })
     }
 }
 
@@ -97,13 +116,35 @@ pub fn emit_twin_case<T: Sc>(
     kind_attrs: &str,
     c: &StateCase<T>,
     primary: Box<dyn DynP<T>>,
+    twins: Vec<Twin<T>>,
+) {
+    emit_twin_case_f(out, kind_attrs, c, primary, twins, None)
+}
+
+fn emit_tables_f<T: Sc>(out: &mut Out, recipe: &Recipe, alpha: &[T], fail: Option<(usize, T)>) {
+    out.line(&format!(" phi ok {}", mat_str(&recipe.phi::<T>(alpha))));
+    for k in 0..recipe.p() {
+        match fail {
+            Some((kf, thr)) if kf == k && alpha[0] > thr => out.line(&format!(" d {} err", k)),
+            _ => out.line(&format!(" d {} ok {}", k, mat_str(&recipe.dphi::<T>(alpha, k)))),
+        }
+    }
+}
+
+/// as `emit_twin_case`; `fail` = the derivative failure rule shared by the primary and its twins
+pub fn emit_twin_case_f<T: Sc>(
+    out: &mut Out,
+    kind_attrs: &str,
+    c: &StateCase<T>,
+    primary: Box<dyn DynP<T>>,
     mut twins: Vec<Twin<T>>,
+    fail: Option<(usize, T)>,
 ) {
     out.begin("state", &format!("{} {}", header_common(c), kind_attrs));
     emit_inputs(out, c);
     let mut prob = primary;
     out.line(&format!("step build {}", slice_str(&c.init)));
-    emit_tables(out, &c.recipe, &c.init);
+    emit_tables_f(out, &c.recipe, &c.init, fail);
     out.line(&format!(" impl yw {}", mat_str(&prob.yw())));
     emit_outputs(out, "impl", prob.as_ref());
     for t in twins.iter() {
@@ -112,7 +153,7 @@ pub fn emit_twin_case<T: Sc>(
     }
     for alpha in c.history.iter() {
         out.line(&format!("step set {}", slice_str(alpha)));
-        emit_tables(out, &c.recipe, alpha);
+        emit_tables_f(out, &c.recipe, alpha, fail);
         let av = DVector::from_vec(alpha.clone());
         if let Err(m) = guarded(|| prob.set(&av)) {
             out.line(&format!(" impl panic {}", m));
@@ -254,6 +295,8 @@ fn one_wtwin<T: Sc>(out: &mut Out, rng: &mut Rng, thorough: bool, i: usize) {
             scale: Some(w.clone()),
             overwrite: vec![],
             entries: vec![],
+            fail_deriv: None,
+            dentries: vec![],
         }));
         let mut ys = c.y.clone();
         for j in 0..ys.ncols() {
@@ -279,6 +322,8 @@ fn one_wtwin<T: Sc>(out: &mut Out, rng: &mut Rng, thorough: bool, i: usize) {
             scale: None,
             overwrite: zeros.iter().map(|r| (*r, T::of(3.25 + *r as f64))).collect(),
             entries: vec![],
+            fail_deriv: None,
+            dentries: vec![],
         }));
         let mut yz = c.y.clone();
         for r in zeros.iter() {
@@ -384,17 +429,47 @@ fn one_par<T: Sc>(out: &mut Out, rng: &mut Rng, thorough: bool, i: usize, thread
         c.origin = "par";
     }
     let w = c.w.clone();
-    let primary = match dynp(fl, wrap_any(any_model(&c.recipe, &c.init, c.built)), &c.y, w.as_ref(), c.eps) {
+    // one case in four: a partial derivative fails at some of the parameter vectors of the history
+    // (the parallel Jacobian must then be absent exactly where the sequential one is)
+    let fail: Option<(usize, T)> = if i % 4 == 1 {
+        let mut a0: Vec<f64> = c.history.iter().map(|a| a[0].f()).collect();
+        a0.push(c.init[0].f());
+        a0.sort_by(|x, y| x.partial_cmp(y).unwrap());
+        Some((rng.below(c.recipe.p()), T::of(a0[a0.len() / 2] - 1e-3)))
+    } else {
+        None
+    };
+    let mk = |c: &StateCase<T>| -> WM<T> {
+        match fail {
+            None => wrap_any(any_model(&c.recipe, &c.init, c.built)),
+            Some(fd) => wrap_any(AnyModel::Dyn(Box::new(RowModel {
+                inner: any_model(&c.recipe, &c.init, c.built),
+                scale: None,
+                overwrite: vec![],
+                entries: vec![],
+                fail_deriv: Some(fd),
+                dentries: vec![],
+            }))),
+        }
+    };
+    let primary = match dynp(fl, mk(&c), &c.y, w.as_ref(), c.eps) {
         Some(p) => p,
         None => return,
     };
     let mut twins: Vec<Twin<T>> = Vec::new();
-    if let Some(p) = dynp(fl.seq(), wrap_any(any_model(&c.recipe, &c.init, c.built)), &c.y, w.as_ref(), c.eps) {
+    if let Some(p) = dynp(fl.seq(), mk(&c), &c.y, w.as_ref(), c.eps) {
         twins.push(Twin { prefix: "twinSeq".into(), prob: p });
     }
     // a parallel problem converted to its sequential form right after construction
-    if let Some(p) = dynp(fl, wrap_any(any_model(&c.recipe, &c.init, c.built)), &c.y, w.as_ref(), c.eps) {
+    if let Some(p) = dynp(fl, mk(&c), &c.y, w.as_ref(), c.eps) {
         twins.push(Twin { prefix: "twinInto".into(), prob: p.to_seq() });
     }
-    emit_twin_case(out, &format!("twins=twinSeq,twinInto threads={}", threads), &c, primary, twins);
+    emit_twin_case_f(
+        out,
+        &format!("twins=twinSeq,twinInto threads={} failderiv={}", threads, if fail.is_some() { 1 } else { 0 }),
+        &c,
+        primary,
+        twins,
+        fail,
+    );
 }
